@@ -105,6 +105,12 @@ type Finding struct {
 	WhatFails string `json:"what_fails"`
 }
 
+// loadFindings parses /verif/known_findings.txt, one entry per line:
+//
+//	known: property=<id> key=<rule/construct> <what fails>
+//	fixed: property=<id> <commit> <what failed>
+//
+// "fixed" entries suppress nothing; they are a record.
 func loadFindings(path string) ([]Finding, error) {
 	b, err := os.ReadFile(path)
 	if err != nil {
@@ -113,13 +119,45 @@ func loadFindings(path string) ([]Finding, error) {
 		}
 		return nil, err
 	}
-	var f struct {
-		Findings []Finding `json:"findings"`
+	var out []Finding
+	for _, line := range strings.Split(string(b), "\n") {
+		line = strings.TrimSpace(line)
+		if line == "" || strings.HasPrefix(line, "#") {
+			continue
+		}
+		switch {
+		case strings.HasPrefix(line, "known:"):
+			rest := strings.TrimSpace(strings.TrimPrefix(line, "known:"))
+			f := Finding{Status: "known"}
+			if !strings.HasPrefix(rest, "property=") {
+				return nil, fmt.Errorf("malformed known-finding line: %q", line)
+			}
+			parts := strings.SplitN(rest, " ", 2)
+			f.Property = strings.TrimPrefix(parts[0], "property=")
+			if len(parts) < 2 || !strings.HasPrefix(parts[1], "key=") {
+				return nil, fmt.Errorf("malformed known-finding line (no key=): %q", line)
+			}
+			// key may contain spaces: it ends at " :: "
+			kv := strings.SplitN(strings.TrimPrefix(parts[1], "key="), " :: ", 2)
+			f.Key = strings.TrimSpace(kv[0])
+			if len(kv) == 2 {
+				f.WhatFails = strings.TrimSpace(kv[1])
+			}
+			out = append(out, f)
+		case strings.HasPrefix(line, "fixed:"):
+			rest := strings.Fields(strings.TrimPrefix(line, "fixed:"))
+			f := Finding{Status: "fixed"}
+			if len(rest) >= 2 {
+				f.Property = strings.TrimPrefix(rest[0], "property=")
+				f.Commit = rest[1]
+				f.WhatFails = strings.Join(rest[2:], " ")
+			}
+			out = append(out, f)
+		default:
+			return nil, fmt.Errorf("malformed line in known findings: %q", line)
+		}
 	}
-	if err := json.Unmarshal(b, &f); err != nil {
-		return nil, err
-	}
-	return f.Findings, nil
+	return out, nil
 }
 
 // ---- evidence ----
@@ -163,9 +201,9 @@ func (r *Recorder) Finish(w *World, info propInfo, tier string, seed int, outDir
 		}
 	}
 
-	findings, ferr := loadFindings(filepath.Join(verifDir, "known_findings.json"))
+	findings, ferr := loadFindings(filepath.Join(verifDir, "known_findings.txt"))
 	if ferr != nil {
-		r.Undecide("framework", "known_findings.json", "-", ferr.Error())
+		r.Undecide("framework", "known_findings.txt", "-", ferr.Error())
 	}
 	known := map[string]Finding{}
 	for _, f := range findings {
